@@ -48,15 +48,9 @@ def _mutate(name):
                 encode = self.__dict__['_encode'] = codecs.getincrementalencoder(self.encoding or 'utf-8')().encode
             return encode(result)
         zt.PageTextTemplateFile.render = render
-    elif name == 'digest_without_class':
-        from chameleon import template as ct
-        src_fn = ct.BaseTemplate.digest
-        code = textwrap.dedent(inspect.getsource(src_fn))
-        new = code.replace("sha.update(class_name)", "pass")
-        assert new != code
-        ns = src_fn.__globals__
-        exec('from __future__ import annotations\n' + new, ns)
-        ct.BaseTemplate.digest = ns['digest']
+    elif name == 'digest_ignores_template_kind':
+        from vlib.mutants import digest_ignores_template_kind
+        digest_ignores_template_kind()
     elif name == 'dollar_kept':
         src_fn = zp.MacroProgram.visit_text
         code = textwrap.dedent(inspect.getsource(src_fn)).replace("node = node.replace('$$', '$')", "node = node")
